@@ -269,8 +269,14 @@ class LinEval:
 
     def op(self, t):
         n, a = t[1], t[2]
-        if n in ('iadd', 'isub', 'imul', 'imin', 'imax'):
+        if n in ('iadd', 'isub', 'imul', 'imin', 'imax', 'idiv', 'irem', 'saturating_sub'):
             x, y = self.num(a[0]), self.num(a[1])
+            if n in ('idiv', 'irem'):
+                if y == 0:
+                    raise NonConst()
+                return int(x // y) if n == 'idiv' else int(x % y)
+            if n == 'saturating_sub':
+                return int(max(x - y, 0))
             return int({'iadd': x + y, 'isub': x - y, 'imul': x * y, 'imin': min(x, y), 'imax': max(x, y)}[n])
         if n in ('eq', 'ne', 'lt', 'le', 'gt', 'ge'):
             try:
@@ -394,6 +400,35 @@ def param_env(mm, args_by_name, touched=None):
         elif isinstance(v, (int, bool)):
             env[cell] = v
     return env, ev.problems
+
+
+def entry_state(skel_state, params, float_cells):
+    """Symbolic entry state for a skeleton: every float cell / buffer element is its own atom."""
+    state = {}
+    atoms = []
+    for cell, val in skel_state.items():
+        if isinstance(val, sk.Seq):
+            n = val.n or 0
+            state[cell] = [Form({'b:%s:%d' % (cell, j): 1.0}) for j in range(n)]
+            atoms += ['b:%s:%d' % (cell, j) for j in range(n)]
+        elif isinstance(val, sk.Opt):
+            if val.some is False:
+                state[cell] = ('none',)
+            else:
+                state[cell] = ('some', Form({'c:%s' % cell: 1.0}))
+                atoms.append('c:%s' % cell)
+        elif isinstance(val, bool) or isinstance(val, int):
+            state[cell] = val
+        else:
+            if cell in params:
+                state[cell] = params[cell]
+            elif cell in float_cells:
+                state[cell] = Form({'c:%s' % cell: 1.0})
+                atoms.append('c:%s' % cell)
+    for cell, val in params.items():
+        if cell not in state:
+            state[cell] = val
+    return state, atoms
 
 
 def symbolic_step(F, v, m, skel_state, params, float_cells):
